@@ -74,7 +74,8 @@ def generate(rng, tier):
         extra = rng.choice([0, 0, 1, 2])
         alias = 1 if (extra == 0 and rng.random() < 0.1) else 0
         intrude = 1 if rng.random() < 0.3 else 0     # callback re-entrancy: a twin filter runs inside every model callback
-        c = caseio.Case(k, "kf_correct", {"steps": steps, "extra": extra, "alias": alias, "intrude": intrude, "n": st[0]["n"], "m": st[0]["m"], "comps": st[0]["comps"], "hkind": st[0]["hkind"],
+        lifetime = rng.choice(["fresh", "fresh", "fresh", "moved", "moved_after_use"])
+        c = caseio.Case(k, "kf_correct", {"steps": steps, "extra": extra, "alias": alias, "intrude": intrude, "lifetime": lifetime, "n": st[0]["n"], "m": st[0]["m"], "comps": st[0]["comps"], "hkind": st[0]["hkind"],
                                           "cond": "%.3g" % max(x["cond"] for x in st), "rankH": st[0]["rankH"],
                                           "shapes": ",".join("%d:%d:%d" % (x["n"], x["m"], x["comps"]) for x in st),
                                           "conds": ",".join("%.3g" % x["cond"] for x in st),
